@@ -27,7 +27,7 @@ from frappy.dynamic import Pinata
 from frappy.errors import ConfigError, NoSuchModuleError, NoSuchParameterError
 from frappy.lib import get_class
 from frappy.version import get_version
-from frappy.modules import Module
+from frappy.modules import Attached, Module
 
 
 class SecNode:
@@ -52,6 +52,8 @@ class SecNode:
         self.failed_modules = set()
         # list of errors that occured during initialization
         self.errors = []
+        # names of the modules being initialized right now (for detecting cycles)
+        self._initializing = []
         self.traceback_counter = 0
         self.name = name
 
@@ -75,9 +77,16 @@ class SecNode:
             return None
         if modobj._isinitialized:
             return modobj
+        name = modobj.name
+        if name in self._initializing:
+            # we came back to a module while initializing the modules attached to it
+            cycle = self._initializing[self._initializing.index(name):] + [name]
+            self.errors.append(f"cyclic attachment of modules: {' -> '.join(cycle)}")
+            return modobj
 
         # also call earlyInit on the modules
         self.log.debug('initializing module %r', modulename)
+        self._initializing.append(name)
         try:
             modobj.earlyInit()
             if not modobj.earlyInitDone:
@@ -87,11 +96,19 @@ class SecNode:
             if not modobj.initModuleDone:
                 self.errors.append(f'{modobj.initModule.__qualname__} was not '
                                    f'called, probably missing super call')
+            # resolve all attachments now: a missing, wrongly typed or cyclic
+            # attachment is a configuration error, even if the module does not
+            # look at it before the node is running
+            for pname, prop in modobj.propertyDict.items():
+                if isinstance(prop, Attached):
+                    getattr(modobj, pname)
         except Exception as e:
             if self.traceback_counter == 0:
                 self.log.exception(traceback.format_exc())
             self.traceback_counter += 1
             self.errors.append(f'error initializing {modulename}: {e!r}')
+        finally:
+            self._initializing.pop()
         modobj._isinitialized = True
         self.log.debug('initialized module %r', modulename)
         return modobj
